@@ -69,6 +69,8 @@ struct Tree { std::string sym; std::vector<Tree> ch; };
 bool accepts(const TA& a, const Tree& t);
 void enum_trees(const Alphabet& sigma, int depth, std::vector<Tree>& out, size_t cap);
 std::string tree_str(const Tree& t);
+// a random accepted tree (top-down expansion along rules whose children can still finish within the depth budget); false if the language is empty
+bool sample_tree(const TA& a, uint64_t seed, int max_depth, Tree& out);
 
 // ------------------------------------------------------------- word automata
 struct Edge {
